@@ -144,4 +144,215 @@ theorem factorsPG_hash_plain (len : Bool) :
         simp only [Except.ok.injEq] at hmm
         exact hmm ▸ hm.2
 
+/-! ### conjunctions: whatever the sameness test, a lost conjunct is harmless
+
+`merge` under AND keeps `left[k]` alone when the test calls the two factors the same.  For a conjunction that is a weaker
+filter, never a wrong one: on every condition without a disjunction every factor produced with **any** sameness test
+(the hash test of /repo HEAD included) is sound.  Only `Or.factors` (a lost disjunct) makes the hash test unsafe. -/
+
+/-- the boolean skeleton contains no disjunction -/
+def orFree : Pred → Bool
+  | .atom _ => true
+  | .other _ => true
+  | .and a b => orFree a && orFree b
+  | .or _ _ => false
+
+theorem mem_mergeFG {same : Feature → Feature → Bool} {op : Op} {l r : FMap} {t : Source} {f : Feature}
+    (h : (t, f) ∈ mergeFG same op l r) :
+    (t, f) ∈ l ∨ (t, f) ∈ r ∨ ∃ a b, (t, a) ∈ l ∧ (t, b) ∈ r ∧ f = binop op a b := by
+  unfold mergeFG at h
+  rcases List.mem_append.mp h with h | h
+  · obtain ⟨kv, hkv, heq⟩ := List.mem_map.mp h
+    obtain ⟨k, a⟩ := kv
+    cases hl : r.lookup k with
+    | none =>
+      simp only [hl] at heq
+      cases heq
+      exact Or.inl hkv
+    | some b =>
+      have hb := mem_of_lookup hl
+      cases hab : same a b with
+      | true =>
+        simp only [hl, hab, if_true] at heq
+        cases heq
+        exact Or.inl hkv
+      | false =>
+        simp only [hl, hab, Bool.false_eq_true, if_false] at heq
+        cases heq
+        exact Or.inr (Or.inr ⟨a, b, hkv, hb, rfl⟩)
+  · exact Or.inr (Or.inl (List.mem_filter.mp h).1)
+
+/-- on a condition without a disjunction the factors are sound for every sameness test -/
+theorem factorsPG_conj_sound (same : Feature → Feature → Bool) (len : Bool) (S : Sem) :
+    ∀ (p : Pred), orFree p = true → ∀ (m : FMap), factorsPG same len p = .ok m → ∀ t f, (t, f) ∈ m → FactorOK S p t f
+  | .atom g, _, m, h, t, f, hm => by
+    simp only [factorsPG, Except.ok.injEq] at h
+    subst h
+    obtain ⟨rfl, ht, hown, hne⟩ := primitive_ok hm
+    exact ⟨ht, hown, hne, fun e he => by simpa [elemsP] using he, fun env he => by simpa [evalP] using he⟩
+  | .other g, _, m, h, t, f, hm => by
+    simp only [factorsPG] at h
+    cases len <;> simp at h
+    subst h
+    simp at hm
+  | .or a b, ho, _, _, _, _, _ => by simp [orFree] at ho
+  | .and a b, ho, m, h, t, f, hm => by
+    simp only [orFree, Bool.and_eq_true] at ho
+    simp only [factorsPG] at h
+    cases ha : factorsPG same len a with
+    | error e => simp [ha] at h
+    | ok l =>
+      cases hb : factorsPG same len b with
+      | error e => simp [ha, hb] at h
+      | ok r =>
+        simp only [ha, hb, Except.ok.injEq] at h
+        subst h
+        have iha := factorsPG_conj_sound same len S a ho.1 l ha
+        have ihb := factorsPG_conj_sound same len S b ho.2 r hb
+        have lft : ∀ f, (t, f) ∈ l → FactorOK S (.and a b) t f := fun f hf =>
+          let k := iha t f hf
+          ⟨k.table, k.own, k.nonempty, fun e he => by simp [elemsP, k.sub e he],
+           fun env he => k.sound env (and3_true.mp (by simpa [evalP] using he)).1⟩
+        have rgt : ∀ f, (t, f) ∈ r → FactorOK S (.and a b) t f := fun f hf =>
+          let k := ihb t f hf
+          ⟨k.table, k.own, k.nonempty, fun e he => by simp [elemsP, k.sub e he],
+           fun env he => k.sound env (and3_true.mp (by simpa [evalP] using he)).2⟩
+        rcases mem_mergeFG hm with h1 | h1 | ⟨fa, fb, h1, h2, rfl⟩
+        · exact lft f h1
+        · exact rgt f h1
+        · have ka := lft fa h1
+          have kb := rgt fb h2
+          refine ⟨ka.table, ?_, binop_nonempty _ ka.nonempty, ?_, ?_⟩
+          · intro e he
+            rcases (elems_binop _ _ _ _).mp he with he | he
+            · exact ka.own e he
+            · exact kb.own e he
+          · intro e he
+            rcases (elems_binop _ _ _ _).mp he with he | he
+            · exact ka.sub e he
+            · exact kb.sub e he
+          · intro env he
+            rw [eval_binop_and]
+            exact and3_true.mpr ⟨ka.sound env he, kb.sound env he⟩
+
+/-! ### disjunctions: what the sameness test has to guarantee
+
+`Factors.__or__` keeps `left[k]` alone when the test calls the two factors the same.  That is sound exactly when the right
+factor being TRUE forces the left one to be TRUE (`ImpliedTest`): structural identity has it, the hash test has not. -/
+
+/-- whenever the test calls `a` and `b` the same, every environment on which `b` is TRUE makes `a` TRUE -/
+def ImpliedTest (S : Sem) (same : Feature → Feature → Bool) : Prop :=
+  ∀ a b, same a b = true → ∀ env, eval S env b = .bool true → eval S env a = .bool true
+
+theorem mem_orFG {same : Feature → Feature → Bool} {l r : FMap} {t : Source} {f : Feature} (h : (t, f) ∈ orFG same l r) :
+    (∃ b, (t, f) ∈ l ∧ (t, b) ∈ r ∧ same f b = true) ∨ (∃ a b, (t, a) ∈ l ∧ (t, b) ∈ r ∧ f = binop .or a b) := by
+  unfold orFG at h
+  obtain ⟨kv, hkv, heq⟩ := List.mem_filterMap.mp h
+  obtain ⟨k, a⟩ := kv
+  cases hl : r.lookup k with
+  | none => simp [hl] at heq
+  | some b =>
+    have hb := mem_of_lookup hl
+    cases hab : same a b with
+    | true =>
+      simp only [hl, hab, if_true, Option.some.injEq] at heq
+      cases heq
+      exact Or.inl ⟨b, hkv, hb, hab⟩
+    | false =>
+      simp only [hl, hab, Bool.false_eq_true, if_false, Option.some.injEq] at heq
+      cases heq
+      exact Or.inr ⟨a, b, hkv, hb, rfl⟩
+
+/-- every condition, every sameness test with `ImpliedTest`: the factors are sound -/
+theorem factorsPG_sound (same : Feature → Feature → Bool) (len : Bool) (S : Sem) (hsame : ImpliedTest S same) :
+    ∀ (p : Pred) (m : FMap), factorsPG same len p = .ok m → ∀ t f, (t, f) ∈ m → FactorOK S p t f
+  | .atom g, m, h, t, f, hm => by
+    simp only [factorsPG, Except.ok.injEq] at h
+    subst h
+    obtain ⟨rfl, ht, hown, hne⟩ := primitive_ok hm
+    exact ⟨ht, hown, hne, fun e he => by simpa [elemsP] using he, fun env he => by simpa [evalP] using he⟩
+  | .other g, m, h, t, f, hm => by
+    simp only [factorsPG] at h
+    cases len <;> simp at h
+    subst h
+    simp at hm
+  | .and a b, m, h, t, f, hm => by
+    simp only [factorsPG] at h
+    cases ha : factorsPG same len a with
+    | error e => simp [ha] at h
+    | ok l =>
+      cases hb : factorsPG same len b with
+      | error e => simp [ha, hb] at h
+      | ok r =>
+        simp only [ha, hb, Except.ok.injEq] at h
+        subst h
+        have iha := factorsPG_sound same len S hsame a l ha
+        have ihb := factorsPG_sound same len S hsame b r hb
+        have lft : ∀ f, (t, f) ∈ l → FactorOK S (.and a b) t f := fun f hf =>
+          let k := iha t f hf
+          ⟨k.table, k.own, k.nonempty, fun e he => by simp [elemsP, k.sub e he],
+           fun env he => k.sound env (and3_true.mp (by simpa [evalP] using he)).1⟩
+        have rgt : ∀ f, (t, f) ∈ r → FactorOK S (.and a b) t f := fun f hf =>
+          let k := ihb t f hf
+          ⟨k.table, k.own, k.nonempty, fun e he => by simp [elemsP, k.sub e he],
+           fun env he => k.sound env (and3_true.mp (by simpa [evalP] using he)).2⟩
+        rcases mem_mergeFG hm with h1 | h1 | ⟨fa, fb, h1, h2, rfl⟩
+        · exact lft f h1
+        · exact rgt f h1
+        · have ka := lft fa h1
+          have kb := rgt fb h2
+          refine ⟨ka.table, ?_, binop_nonempty _ ka.nonempty, ?_, ?_⟩
+          · intro e he
+            rcases (elems_binop _ _ _ _).mp he with he | he
+            · exact ka.own e he
+            · exact kb.own e he
+          · intro e he
+            rcases (elems_binop _ _ _ _).mp he with he | he
+            · exact ka.sub e he
+            · exact kb.sub e he
+          · intro env he
+            rw [eval_binop_and]
+            exact and3_true.mpr ⟨ka.sound env he, kb.sound env he⟩
+  | .or a b, m, h, t, f, hm => by
+    simp only [factorsPG] at h
+    cases ha : factorsPG same len a with
+    | error e => simp [ha] at h
+    | ok l =>
+      cases hb : factorsPG same len b with
+      | error e => simp [ha, hb] at h
+      | ok r =>
+        simp only [ha, hb, Except.ok.injEq] at h
+        subst h
+        have iha := factorsPG_sound same len S hsame a l ha
+        have ihb := factorsPG_sound same len S hsame b r hb
+        rcases mem_orFG hm with ⟨fb, h1, h2, hs⟩ | ⟨fa, fb, h1, h2, rfl⟩
+        · have ka := iha t f h1
+          have kb := ihb t fb h2
+          refine ⟨ka.table, ka.own, ka.nonempty, fun e he => by simp [elemsP, ka.sub e he], ?_⟩
+          intro env he
+          rcases or3_true.mp (by simpa [evalP] using he) with he | he
+          · exact ka.sound env he
+          · exact hsame f fb hs env (kb.sound env he)
+        · have ka := iha t fa h1
+          have kb := ihb t fb h2
+          refine ⟨ka.table, ?_, binop_nonempty _ ka.nonempty, ?_, ?_⟩
+          · intro e he
+            rcases (elems_binop _ _ _ _).mp he with he | he
+            · exact ka.own e he
+            · exact kb.own e he
+          · intro e he
+            rcases (elems_binop _ _ _ _).mp he with he | he
+            · simp [elemsP, ka.sub e he]
+            · simp [elemsP, kb.sub e he]
+          · intro env he
+            rw [eval_binop_or]
+            rcases or3_true.mp (by simpa [evalP] using he) with he | he
+            · exact or3_true.mpr (Or.inl (ka.sound env he))
+            · exact or3_true.mpr (Or.inr (kb.sound env he))
+
+theorem impliedTest_structural (S : Sem) : ImpliedTest S (fun a b => decide (a = b)) := by
+  intro a b h env hb
+  have : a = b := by simpa using h
+  exact this ▸ hb
+
 end ForML.PushDown
